@@ -115,21 +115,25 @@ def delayed_load(all_props, loader, element=True, isotope=False, ion=False):
         """
         Property setter for attribute propname.
 
-        This function is assumed to be called when the data loader for the
-        attribute is called before the property is referenced (for example,
-        if somebody imports periodictable.xsf before referencing Ni.xray).
-        In this case, we simply need to clear the delayed load property and
-        let the loader set the values as usual.
+        This function is called when a value is assigned before the
+        property was first referenced: by the data loader itself when it is
+        called explicitly (for example, xsf.init_spectral_lines(elements)
+        before referencing Ni.K_alpha), by the loader of a private table, or
+        by a user overriding a value ("Ni.K_alpha=5").
 
-        If the user tries to override a value in the table before first
-        referencing the table, then the above assumption is false. E.g.,
-        "Ni.K_alpha=5" followed by "print Cu.K_alpha" will yield an
-        undefined Cu.K_alpha. This will be difficult for future users
-        to debug.
+        In every case the delayed load properties are cleared, the public
+        table is loaded, and only then is the value assigned.  Loading first
+        keeps the class-level defaults that the loader sets (clearing after
+        the loader has set them would delete them again) and makes sure that
+        the rest of the public table is defined ("print Cu.K_alpha" after
+        "Ni.K_alpha=5").  When the caller is the public loader itself, the
+        nested load either returns at once (its table is already marked as
+        loaded) or assigns the same values the caller is about to assign.
         """
         def setfn(el, value):
             #print "set", el, propname, value
             clearprops()
+            loader()
             setattr(el, propname, value)
         return setfn
 
